@@ -9,6 +9,7 @@ import (
 type subInfo struct {
 	key      string
 	notifier INotifier
+	unsub    bool // request to remove the subscription; travels on the same channel as the subscription itself
 }
 
 // subPub is a wrapper for the publish-subscribe function
@@ -58,7 +59,9 @@ func (s *subPub) Subscribe(iNotifier INotifier, nameSpace string, kind string, p
 
 	go func() {
 		<-iNotifier.Err()
-		s.unsubInfoChan <- info
+		// queued behind the subscription on the same FIFO channel, so that process can never
+		// handle the removal before the registration it belongs to
+		s.subInfoChan <- subInfo{key: key, notifier: iNotifier, unsub: true}
 	}()
 
 	return nil
@@ -69,6 +72,10 @@ func (s *subPub) process() {
 	for {
 		select {
 		case info := <-s.subInfoChan:
+			if info.unsub {
+				s.unsubscribe(info)
+				continue
+			}
 			var slice []*subInfo
 			v, ok := s.keyToNotifier.Load(info.key)
 			if !ok {
@@ -79,24 +86,29 @@ func (s *subPub) process() {
 			slice = append(slice, &info)
 			s.keyToNotifier.Store(info.key, slice)
 		case info := <-s.unsubInfoChan:
-			v, ok := s.keyToNotifier.Load(info.key)
-			if !ok {
-				continue
-			}
-			slice := v.([]*subInfo)
-			cSlice := make([]*subInfo, len(slice))
-			copy(cSlice, slice)
-			for j := 0; j < len(cSlice); j++ {
-				if cSlice[j].notifier == info.notifier {
-					cSlice = append(cSlice[:j], cSlice[j+1:]...)
-				}
-			}
-			if len(cSlice) == 0 {
-				s.keyToNotifier.Delete(info.key)
-			} else {
-				s.keyToNotifier.Store(info.key, cSlice)
-			}
+			s.unsubscribe(info)
 		}
+	}
+}
+
+// unsubscribe removes the registrations of info.notifier under info.key
+func (s *subPub) unsubscribe(info subInfo) {
+	v, ok := s.keyToNotifier.Load(info.key)
+	if !ok {
+		return
+	}
+	slice := v.([]*subInfo)
+	cSlice := make([]*subInfo, len(slice))
+	copy(cSlice, slice)
+	for j := 0; j < len(cSlice); j++ {
+		if cSlice[j].notifier == info.notifier {
+			cSlice = append(cSlice[:j], cSlice[j+1:]...)
+		}
+	}
+	if len(cSlice) == 0 {
+		s.keyToNotifier.Delete(info.key)
+	} else {
+		s.keyToNotifier.Store(info.key, cSlice)
 	}
 }
 
